@@ -403,7 +403,7 @@ def rule_argument_roles(ctx, cfg='prod-all', scope=('bbsplus::', 'utils::util::b
                     continue
                 at = fd.read_op(a)
                 srcs = sorted({b.local_name(strip(x)[1]) for x in at if strip(x)[0] == 'p'})
-                aliases = {'pk': ('pk', 'signer_pk'), 'signer_pk': ('signer_pk', 'pk')}.get(role, (role,))
+                aliases = {'pk': ('pk', 'signer_pk'), 'signer_pk': ('signer_pk', 'pk'), 'a': ('a', 'rmin'), 'b': ('b', 'rmax')}.get(role, (role,))
                 own = [x for x in aliases if b.param_index(x) is not None]
                 if not own:
                     continue      # the caller computes this value itself (e.g. sk_to_pk(sk) in key generation): nothing to pass through
